@@ -81,6 +81,7 @@ class UnusedTranslator:
                 ASTType.Edge,
                 ASTType.Heuristic,
                 ASTType.ProjectAtom,
+                ASTType.ShowTerm,
             ):
                 self._add_usage(stm.body)
             if stm.ast_type == ASTType.Rule and stm.head.ast_type in (
